@@ -45,6 +45,11 @@ type connection struct {
 	group string
 	id    string
 	ch    chan []byte
+
+	// set by the worker once the disconnect of this connection has been
+	// processed; connect and disconnect arrive on separate channels, so the
+	// disconnect of a short lived connection may be processed first
+	gone bool
 }
 
 type connections struct {
@@ -76,6 +81,13 @@ func (cs *connections) get(group string, id string) (*connection, bool) {
 func (cs *connections) add(conn *connection) {
 	util.Assert(conn.ch != nil, "channel must not be nil")
 
+	// the listener already went away (its disconnect overtook its connect),
+	// registering it now would leave a connection nobody reads from
+	if conn.gone {
+		close(conn.ch)
+		return
+	}
+
 	// first remove the current connection
 	cs.rmv(conn, false)
 
@@ -93,6 +105,10 @@ func (cs *connections) add(conn *connection) {
 
 func (cs *connections) rmv(conn *connection, match bool) {
 	util.Assert(conn.ch != nil, "channel must not be nil")
+
+	if match {
+		conn.gone = true
+	}
 
 	// remove the connection iff the channels match, if the channels
 	// don't match then the connection has been usurped (and already
